@@ -606,7 +606,7 @@ class SemanticErrorChecker:
                 if isinstance(attribute, Struct):
                     attribute.name = correct_attribute_type
                     struct_def = self.structs[correct_attribute_type]
-                    struct_correct = True
+                    struct_correct = self.check_for_missing_attribute_in_struct(attribute, struct_def)
                     for identifier in attribute.attributes:
                         if not (
                             self.check_for_unknown_attribute_in_struct(attribute, identifier, struct_def)
@@ -941,6 +941,8 @@ class SemanticErrorChecker:
             return isinstance(value, bool)
         if value_type == "string":
             return isinstance(value, str)
+        if value_type in self.structs:
+            return isinstance(value, Struct) and value.name == value_type
         if isinstance(value, Struct):
             return value.name == value_type
         # value was a string
